@@ -46,6 +46,72 @@ def apply_patch(root: str, patch_path: str) -> None:
         raise RuntimeError(f"patch does not apply: {r.stderr[:300]}")
 
 
+RUNTIME_FILES = ("peg_parser/subheader.py", "peg_parser/tokenizer.py", "peg_parser/tokenize.py", "peg_parser/parser.py")
+
+
+def transform_unparse(root: str):
+    """Formatting round trip: comments, blank lines, redundant parentheses and string quoting all change."""
+    import ast
+    for rel in RUNTIME_FILES:
+        p = os.path.join(root, rel)
+        src = open(p, encoding="utf-8").read()
+        out = ast.unparse(ast.parse(src))
+        if src.startswith("from __future__"):
+            pass
+        open(p, "w", encoding="utf-8").write(out + "\n")
+        py_compile.compile(p, cfile=os.path.join(root, ".pyc_check"), doraise=True)
+
+
+def transform_rename_locals(root: str):
+    """Consistent renaming of function-local variables (not parameters, not names shared with nested functions)."""
+    import ast
+
+    class Ren(ast.NodeTransformer):
+        def __init__(self, names):
+            self.names = names
+
+        def visit_Name(self, node):
+            if node.id in self.names:
+                node.id = node.id + "_r"
+            return node
+
+        def visit_FunctionDef(self, node):
+            return node  # nested functions are handled on their own
+
+        visit_Lambda = visit_FunctionDef
+
+    def own(fn):
+        todo = list(fn.body)
+        while todo:
+            n = todo.pop()
+            yield n
+            if isinstance(n, (ast.FunctionDef, ast.Lambda, ast.ClassDef)):
+                continue
+            todo.extend(ast.iter_child_nodes(n))
+
+    for rel in RUNTIME_FILES[:3]:
+        p = os.path.join(root, rel)
+        mod = ast.parse(open(p, encoding="utf-8").read())
+        for fn in [n for n in ast.walk(mod) if isinstance(n, ast.FunctionDef)]:
+            params = {a.arg for a in fn.args.args + fn.args.kwonlyargs + fn.args.posonlyargs}
+            if fn.args.vararg:
+                params.add(fn.args.vararg.arg)
+            if fn.args.kwarg:
+                params.add(fn.args.kwarg.arg)
+            stored = {n.id for n in own(fn) if isinstance(n, ast.Name) and isinstance(n.ctx, ast.Store)}
+            nested_uses = {x.id for n in own(fn) if isinstance(n, (ast.FunctionDef, ast.Lambda)) for x in ast.walk(n) if isinstance(x, ast.Name)}
+            glob = {x for n in own(fn) if isinstance(n, (ast.Global, ast.Nonlocal)) for x in n.names}
+            comp_targets = set()
+            names = stored - params - nested_uses - glob
+            r = Ren(names)
+            fn.body = [r.visit(st) if not isinstance(st, ast.FunctionDef) else st for st in fn.body]
+        open(p, "w", encoding="utf-8").write(ast.unparse(mod) + "\n")
+        py_compile.compile(p, cfile=os.path.join(root, ".pyc_check"), doraise=True)
+
+
+TRANSFORMS = {"unparse": transform_unparse, "rename-locals": transform_rename_locals}
+
+
 def run_check(pid: str, root: str, work: str, tier: str = "quick") -> tuple[int, str]:
     env = dict(os.environ)
     env.update({"VERIF_REPO": root, "VERIF_OUT": os.path.join(work, "out"), "VERIF_EVIDENCE_DIR": os.path.join(work, "evidence"),
@@ -64,6 +130,8 @@ def run_one(m: dict) -> dict:
         make_copy(root)
         if "patch" in m:
             apply_patch(root, m["patch"])
+        elif "transform" in m:
+            TRANSFORMS[m["transform"]](root)
         else:
             apply_edits(root, m["edits"])
         outs = {}
@@ -91,6 +159,9 @@ def load_mutants() -> list[dict]:
     from .mutants import MUTANTS
     from .mutants2 import MUTANTS2
     out = list(MUTANTS) + list(MUTANTS2)
+    allp = ["C%02d" % i for i in range(1, 19) if i != 17]
+    out.append({"name": "benign-global-unparse-roundtrip", "property": "ALL", "transform": "unparse", "expect": "silent", "checks": allp})
+    out.append({"name": "benign-global-rename-locals", "property": "ALL", "transform": "rename-locals", "expect": "silent", "checks": allp})
     seeded = os.path.join(VERIF, "seeded")
     if os.path.isdir(seeded):
         for d in sorted(os.listdir(seeded)):
